@@ -3,7 +3,7 @@
 From Coq Require Import Bool List NArith Lia.
 From Coq.Strings Require Import Byte.
 From GoUefi Require Import Base.Bytes Base.Outcome Base.Reader Base.Prog Model.Util Model.VarIO Model.Faults
-  Proofs.VarIOProofs Proofs.FaultProofs Generated.Sites Proofs.SitesProofs.
+  Proofs.VarIOProofs Proofs.FaultProofs Generated.Sites Proofs.SitesProofs Model.PE Proofs.PEReparse.
 Import ListNotations.
 Local Open Scope N_scope.
 
@@ -49,6 +49,13 @@ Theorem C15_reader_fault : forall A n (cont : prog (outcome A)) k i, (k < n)%nat
   exists t, run (fail_at (i + k) env_all_ok) (reads_prog n cont) i = (Err 1, t) /\ length t = S k.
 Proof. intros A n cont. exact (reads_fault n cont). Qed.
 
+(* no wrong value from Parse: the certificate table of a parsed image is never a truncated
+   one -- it has the size the directory entry gives, or Parse fails (a source that ends
+   while the table is read, or an entry that points past the end of the file) *)
+Theorem C15_parse_table_complete : forall ok img st,
+  pe_parse ok img = Ret st -> blen (pe_table st) = pe_ddsize st.
+Proof. exact parse_table_complete. Qed.
+
 Print Assumptions C15_sign_fault.
 Print Assumptions C15_pe_sign_atomic.
 Print Assumptions C15_signed_update_writes_nothing.
@@ -58,3 +65,4 @@ Print Assumptions C15_write_short.
 Print Assumptions C15_signed_update_fs_fault.
 Print Assumptions C15_read_fault.
 Print Assumptions C15_reader_fault.
+Print Assumptions C15_parse_table_complete.
